@@ -17,7 +17,7 @@ for d in sorted(glob.glob(os.path.join(HERE,"seeded","*"))):
     if not os.path.exists(mp): continue
     m=json.load(open(mp))
     conf="yes" if "CONFIRMED" in m["confirmed_by_me"] and "NOT-CONFIRMED" not in m["confirmed_by_me"] else "NO: "+m["confirmed_by_me"]
-    caught=" ".join(m["checks_that_caught_it_rel"]) or "— (missed)"
+    caught=" ".join(m["checks_that_caught_it_rel"]) or ("— (only in the debug profile, see next column)" if m["own_check_caught_it_dbg"] else "— (not flagged, by design: §16)")
     print(f"| {os.path.basename(d)} | {m['property']}: {m.get('summary', first_line_of_notes(d))} | {conf} | {caught} | {' '.join(m['own_check_caught_it_dbg']) or '—'} |")
 print("\n### 15.2 The author's own mutants (mutants/own)\n")
 print("| mutant | pinned suite | caught by (release, quick tier) |")
